@@ -720,9 +720,54 @@ prop(dict(
 ))
 
 
+def extra_c07(P, ctx):
+    """Advisory symbolic leg: Apalache discharges an inductive invariant of the sequencer as a counter machine with the
+    real modulus (SeqInd.tla): after h draws the state is a function of h alone, for every h. Bound to the code by exact
+    agreement of the closed form with every hook event of the recorded trace. Never a verdict."""
+    import json
+    import os
+    import shutil
+    import subprocess
+    cov = {"apalache": {"obligations": 3, "discharged": 0, "outcome": "not run"}}
+    d = os.path.join(ctx["work"], "apa")
+    os.makedirs(d, exist_ok=True)
+    shutil.copy(os.path.join(ctx["sdir"], "SeqInd.tla"), d)
+    cmds = [["--init=Init", "--inv=IndInv", "--length=0"], ["--init=IndInit", "--inv=IndInv", "--length=1"], ["--init=IndInit", "--inv=Consequences", "--length=0"]]
+    try:
+        n = 0
+        for c in cmds:
+            r = subprocess.run(["apalache-mc", "check", "--cinit=CInit"] + c + ["SeqInd.tla"], cwd=d, capture_output=True, text=True, timeout=300)
+            n += "The outcome is: NoError" in r.stdout
+        cov["apalache"].update(outcome="NoError" if n == 3 else "not proved", discharged=n,
+                               cmd="apalache-mc check --cinit=CInit {--init=Init --inv=IndInv --length=0 | --init=IndInit --inv=IndInv --length=1 | --init=IndInit --inv=Consequences --length=0} SeqInd.tla",
+                               lemmas=["Init => IndInv", "IndInv /\\ Draw => IndInv' (unbounded number of draws, modulus 65536)",
+                                       "IndInv => the h-th number is (start + h - 1) mod 2^16 and roc * 2^16 + sn = s0 + h"])
+    except Exception as e:  # advisory leg
+        cov["apalache"]["outcome"] = "error: %r" % (e,)
+    pts = mism = 0
+    tp = os.path.join(ctx["work"], "trace-main.ndjson")
+    if os.path.exists(tp):
+        start, h, on = 0, 0, False
+        for line in open(tp):
+            if '"ev":"reset"' in line:
+                e = json.loads(line)
+                on = e.get("kind") in ("fixed", "concurrent")      # known start value; roll-over counts are reported relative to a preset
+                start, h = e.get("start", 0), 0
+            elif on and '"ev":"next"' in line:
+                e = json.loads(line)
+                h += 1
+                s0 = (start + 65535) % 65536
+                pts += 1
+                if e["v"] != (start + h - 1) % 65536 or e["roc"] != (s0 + h) // 65536:
+                    mism += 1
+    cov["apalache"].update(binding_points=pts, binding_mismatches=mism,
+                           binding="closed form matches every hook event of the trace" if pts and not mism else "MODEL NO LONGER MATCHES THE CODE (advisory leg only)")
+    return cov, []
+
+
 # ---------------------------------------------------------------- C07
 prop(dict(
-    id="C07", fam="C07", nondeterministic=True,
+    id="C07", fam="C07", nondeterministic=True, extra=extra_c07,
     mc=[("Sequencer.tla", "Sequencer.cfg", {"thorough": {"N": "3", "Ops": "3", "MOD": "4", "Reads": "1"}}),
         ("Sequencer.tla", "SequencerNoLock.cfg", {}, "expect_violation")],
     gen=[("SeqGen.tla", "SeqGen.cfg", {"thorough": {"Stride": "1", "NRandom": "10000", "ConcOps": "208000", "Gs": "{2, 4, 16}"}})],
